@@ -106,8 +106,14 @@ Definition c06_check (c : c06_case) : bool * bool :=
            | None => false
            end
         && forallb (fun c => obs_consistent (snd c)) impl_cells in
+      (* decided here, not by a tag of the generator: a history with an inexpressible parameter
+         (known finding C06-inexpressible: 7 / 27 / 39 / 49) must show exactly the recorded
+         behaviour -- the reference machine with those four parameters as no-ops; every other
+         history the reference machine itself *)
       let holds :=
-        negb (hist_wf hist) || rcells_eqb (ref_cells (abs_face f0) hist) impl_cells in
+        negb (hist_wf hist)
+        || rcells_eqb (if hist_expressible hist then ref_cells (abs_face f0) hist
+                       else ref_cells_lib (abs_face f0) hist) impl_cells in
       (agree, holds)
   | KDec bytes cuts impl_dec impl_whole =>
       (ocmds_eqb (option_map fst (decode_chunks st_init (chunk_at cuts bytes))) impl_dec,
